@@ -40,6 +40,16 @@ type vC12 struct {
 	distinct int64
 	cpu      map[string]time.Duration
 	sampled  map[string]bool
+	deadline time.Time
+	cut      atomic.Bool // a sub-harness stopped in the middle of a block because the soft deadline passed
+}
+
+func (c *vC12) expired() bool {
+	if !c.deadline.IsZero() && time.Now().After(c.deadline) {
+		c.cut.Store(true)
+		return true
+	}
+	return false
 }
 
 // timed adds the duration of f to the per-sub-harness total (reported as evidence, never an oracle).
@@ -153,8 +163,8 @@ func TestVerifC12(t *testing.T) {
 		return
 	}
 	st := newVStats()
-	c := &vC12{rep: rep, st: st, sink: rep.Violation, seen: map[[16]byte]struct{}{}}
 	deadline := rep.Deadline(75*time.Second, 18*time.Minute)
+	c := &vC12{rep: rep, st: st, sink: rep.Violation, seen: map[[16]byte]struct{}{}, deadline: deadline}
 
 	smallSpecs, wideSpecs := vC12Blocks(rep.Tier)
 	// Sequential, deterministic pre-pass over the layouts: drop specs that produce a square already
@@ -319,7 +329,7 @@ func TestVerifC12(t *testing.T) {
 	}
 	wg.Wait()
 
-	exhaustive := blocksSkipped == 0
+	exhaustive := blocksSkipped == 0 && !c.cut.Load()
 	rep.Count(c.evals, c.distinct, 0, 0)
 	rep.Set("blocks_checked", blocksDone)
 	rep.Set("block_specs", map[string]any{"small": len(smallSpecs), "wide": len(wideSpecs), "distinct_squares": len(jobs), "skipped_by_deadline": blocksSkipped})
